@@ -43,39 +43,58 @@ type c35Family struct {
 	alpha  []string // token alphabet
 	q, t   int      // maximal number of tokens, quick / thorough
 	judge  bool     // false: totality only (never sent to the oracle)
+	// prune, if set, skips token sequences that only repeat another enumerated
+	// document (it must depend on adjacent tokens only)
+	prune func(alpha []string, idx []int) bool
+}
+
+// c35PruneRuns skips sequences in which two adjacent tokens are delimiter runs
+// of the same character ("*" "**" is just the run "***", which is a token or a
+// longer run of the same kind), two letters or two spaces.
+func c35PruneRuns(alpha []string, idx []int) bool {
+	for i := 1; i < len(idx); i++ {
+		if alpha[idx[i-1]][0] == alpha[idx[i]][0] {
+			return true
+		}
+	}
+	return false
 }
 
 var c35Families = []c35Family{
 	// The plan's alphabet: block and inline constructs mixed.
 	{"mixed", "", []string{"a", "b", " ", "\n", "\n\n", "*", "_", "`", "# ", "> ", "- ", "1. ",
-		"[", "](u)", "<", ">", "\\", "&amp;", "    ", "```"}, 4, 5, true},
+		"[", "](u)", "<", ">", "\\", "&amp;", "    ", "```"}, 4, 5, true, nil},
 	// Emphasis, code spans, escapes, hard and soft breaks, with ASCII and
 	// non-ASCII punctuation, symbols and spaces around the delimiter runs.
 	{"inline", "", []string{"a", " ", "\n", "*", "**", "_", "__", "`", "``", ".", "(", "\\", "!", "[", "](u)",
-		"é", "€", "\u00a0", "  \n", "&lt;"}, 4, 5, true},
+		"é", "€", "\u00a0", "  \n", "&lt;"}, 4, 5, true, nil},
+	// Delimiter runs of length 1-4 between words: long enough for run text run
+	// text space text run, where the openers_bottom bookkeeping and the rule of
+	// three interact (e.g. "**a*b c****").
+	{name: "emphasisruns", alpha: []string{"a", " ", "*", "**", "***", "****", "_", "__"}, q: 7, t: 8, judge: true, prune: c35PruneRuns},
 	// Link text: nesting, images, code spans and raw HTML inside brackets.
-	{"links", "", []string{"a", "[", "![", "](u)", "]", "*", "`", "<", ">", "\\", "\n"}, 5, 6, true},
+	{"links", "", []string{"a", "[", "![", "](u)", "]", "*", "`", "<", ">", "\\", "\n"}, 5, 6, true, nil},
 	// Link and image tails after "[a](" : destination and title syntax.
-	{"linktail", "[a](", []string{"a", " ", "\n", "<", ">", "\"", "'", "(", ")", "\\", "&amp;", "#", "]"}, 5, 6, true},
-	{"imagetail", "![a *b* c](", []string{"a", " ", "<", ">", "\"", "(", ")", "\\", ")*"}, 5, 6, true},
+	{"linktail", "[a](", []string{"a", " ", "\n", "<", ">", "\"", "'", "(", ")", "\\", "&amp;", "#", "]"}, 5, 6, true, nil},
+	{"imagetail", "![a *b* c](", []string{"a", " ", "<", ">", "\"", "(", ")", "\\", ")*"}, 5, 6, true, nil},
 	// Raw HTML, autolinks and HTML blocks after "<".
-	{"angle", "<", []string{"a", "pre", "td", " ", "\n", "\n\n", "<", ">", "/", "!", "--", "?", "=", "\"", ":", "@", ".", "[CDATA[", "]]", "*", "\x1b"}, 4, 5, true},
+	{"angle", "<", []string{"a", "pre", "td", " ", "\n", "\n\n", "<", ">", "/", "!", "--", "?", "=", "\"", ":", "@", ".", "[CDATA[", "]]", "*", "\x1b"}, 4, 5, true, nil},
 	// Inside an HTML block opened by <pre>: end conditions.
-	{"htmlblock", "<pre>\n", []string{"a", "*a*", "\n", "\n\n", " ", "</pre", "</", "td", ">", "<", "-->", "?>", "> "}, 4, 5, true},
+	{"htmlblock", "<pre>\n", []string{"a", "*a*", "\n", "\n\n", " ", "</pre", "</", "td", ">", "<", "-->", "?>", "> "}, 4, 5, true, nil},
 	// Entity and numeric character references after "&".
-	{"charref", "&", []string{"a", "amp", "lt", "quote", "quot", "#", "x", "X", "0", "3", "5", "7", "d", "8", "f", ";", "&", " ", "`", "\n", "\x00"}, 4, 5, true},
+	{"charref", "&", []string{"a", "amp", "lt", "quote", "quot", "#", "x", "X", "0", "3", "5", "7", "d", "8", "f", ";", "&", " ", "`", "\n", "\x00"}, 4, 5, true, nil},
 	// Info strings of fenced code blocks: escapes, character references, words.
-	{"fenceinfo", "```", []string{"a", "b", " ", "\\", "&amp;", "&#35;", "`", "~", "\n", "```", "*", "&lt"}, 4, 5, true},
+	{"fenceinfo", "```", []string{"a", "b", " ", "\\", "&amp;", "&#35;", "`", "~", "\n", "```", "*", "&lt"}, 4, 5, true, nil},
 	// HTML blocks inside and next to containers.
-	{"containerhtml", "", []string{"> ", "- ", "<a>", "<!--", "-->", "<td>", "</td>", "\n", "\n\n", "a", "  ", " "}, 4, 5, true},
+	{"containerhtml", "", []string{"> ", "- ", "<a>", "<!--", "-->", "<td>", "</td>", "\n", "\n\n", "a", "  ", " "}, 4, 5, true, nil},
 	// Block structure at the character level: markers with and without
 	// spaces, indentation, fences, thematic breaks, lazy continuation.
-	{"blocks", "", []string{"a", " ", "  ", "\n", "-", "+", "*", "1.", "2)", ">", "#", "~~~", "```", "---"}, 5, 6, true},
+	{"blocks", "", []string{"a", " ", "  ", "\n", "-", "+", "*", "1.", "2)", ">", "#", "~~~", "```", "---"}, 5, 6, true, nil},
 	// Totality only: byte level, including tab, CR, NUL and invalid UTF-8.
 	{"bytes", "", []string{"a", " ", "\n", "\t", "\r", "*", "_", "`", "[", "]", "(", ")", "<", ">", "!", "\\", "&", "#", ";", "-",
-		"1", ".", "\x00", "\xff", "\xc3"}, 4, 5, false},
+		"1", ".", "\x00", "\xff", "\xc3"}, 4, 5, false, nil},
 	// Totality only: C01's byte alphabet.
-	{"c01bytes", "", []string{"a", "$", "'", "\"", "\\", " ", "\n", "|", "(", ")", "[", "]", "{", "}", ">", "\xff"}, 5, 6, false},
+	{"c01bytes", "", []string{"a", "$", "'", "\"", "\\", " ", "\n", "|", "(", ")", "[", "]", "{", "}", ">", "\xff"}, 5, 6, false, nil},
 }
 
 // ---------------------------------------------------------------- oracle pool
@@ -999,6 +1018,9 @@ func (st *c35State) explore(f c35Family, n int) {
 			batch = batch[:0]
 		}
 		one := func(idx []int) {
+			if f.prune != nil && f.prune(f.alpha, idx) {
+				return
+			}
 			doc := f.prefix + vk.Join(f.alpha, idx)
 			l.Begin(doc)
 			got, pan := c35Render(doc)
@@ -1183,6 +1205,9 @@ func TestVerifC35(t *testing.T) {
 			mode := "compared with the reference"
 			if !f.judge {
 				mode = "totality only"
+			}
+			if f.prune != nil {
+				mode += "; sequences with two adjacent tokens starting with the same character are skipped, they repeat another document of the family or a longer run"
 			}
 			desc = append(desc, fmt.Sprintf("%s: prefix %q + every sequence of <=%d tokens over %q (%s)", f.name, f.prefix, n, f.alpha, mode))
 		}
